@@ -542,6 +542,30 @@ def parseChunks (s : String) : Option (List Nat × Bool) :=
 def live (l : List (Event (List Nat))) : List (Event (List Nat)) :=
   l.filter (fun e => e != .closed .eof)
 
+/-- `a<k>` = the write is accepted (`WAct.acc k`), `f<k>` = it fails after `k` bytes -/
+def parseWAct (t : String) : Option WAct :=
+  match t.toList with
+  | 'a' :: r => (String.ofList r).toNat?.map .acc
+  | 'f' :: r => (String.ofList r).toNat?.map .fail
+  | _ => none
+
+def parseOracle (s : String) : Option (List WAct) :=
+  if s = "-" then some [] else (s.splitOn ",").mapM parseWAct
+
+def insertSorted (x : String) : List String → List String
+  | [] => [x]
+  | y :: l => if x < y then x :: y :: l else y :: insertSorted x l
+
+def sortStrings (l : List String) : List String := l.foldr insertSorted []
+
+def showFrames (l : List (List Nat)) : String :=
+  if l.isEmpty then "-" else ",".intercalate (l.map Util.hex)
+
+/-- every thread in turn, each with a write as large as it likes, often enough for all to finish
+(any schedule gives the same set of frames — `c03_mutex_no_interleave`) -/
+def roundRobin (threads rounds : Nat) : List (Nat × Nat) :=
+  (List.range rounds).flatMap fun _ => (List.range threads).map fun i => (i, 1 <<< 30)
+
 def parseSuite : String → Option (Option SuiteId)
   | "nil" => some none
   | "Ed25519" => some (some .ed25519) | "P256" => some (some .p256) | "Residue512" => some (some .residue512)
@@ -563,6 +587,12 @@ def parseKind : String → Option Kind
 * `iface <unm|tcp> <connection suite|nil> <value suite> <point|scalar> <length> <seed>` — a message with
   one point/scalar of the value suite, marshalled and then unmarshalled with the connection's suite
   (directly, or sent and received over a pair of `TCPConn`s): `same` / `differs`
+* `wsend <buffers> <write oracle> <chunks>` — one sender `sendRaw`s the buffers one after the other
+  whatever the earlier results were; the transport treats its `Write` calls as the oracle says
+  (`a<k>` accepted, `f<k>` fails after `k` bytes); the receiver reads what arrived, cut as `chunks`:
+  the result of every send, the frames received, how it ended
+* `csend <buffers of thread 0>;<buffers of thread 1>;…` — the threads `Send` concurrently on one
+  connection: the frames received (sorted) and how it ended
 * `send <tcp|local>[/<proxy chunk pattern>] <buffers>` — `Router.Send` of these messages over a live connection and what
   the receiving router does with them
 -/
@@ -601,6 +631,24 @@ def step (s : State) (toks : List String) : State × String :=
       -- assumption the generator checks), only their number does
       (s, if ifaceSame onetGens su kd (vs.make kd) (List.replicate n 0) then "same" else "differs")
     | _, _, _, _ => (s, "bad-op")
+  | ["wsend", bufs, orc, ch] =>
+    match hexList bufs, parseOracle orc, Util.natList ch with
+    | some bufs, some o, some ch =>
+      let r := ({ oracle := o } : SConn).sendAll bufs
+      let c := cut r.1.out.flatten ch
+      let fr := recvFrames s.max (inflight c + 1) c
+      (s, String.join (r.2.map fun ok => if ok then "1" else "0") ++ " " ++ showFrames fr.1 ++ " end:" ++
+        (match fr.2 with | some e => showErr e | none => "fuel"))
+    | _, _, _ => (s, "bad-op")
+  | ["csend", qs] =>
+    match (qs.splitOn ";").mapM hexList with
+    | some qs =>
+      let total := (qs.map List.length).foldl (· + ·) 0
+      let fin := crun true (cinit fun i => qs.getD i []) (roundRobin qs.length (3 * total + 3))
+      let fr := recvFrames s.max (fin.wire.length + 1) [fin.wire]
+      (s, (if fr.1.isEmpty then "-" else ",".intercalate (sortStrings (fr.1.map Util.hex))) ++ " end:" ++
+        (match fr.2 with | some e => showErr e | none => "fuel"))
+    | none => (s, "bad-op")
   | ["send", tr, bufs] =>
     match hexList bufs with
     | some bufs =>
